@@ -160,13 +160,18 @@ def run_roundtrip(doc, opts, enc, walker, prior=None):
     markup = G.writer(doc)
     tree, p = h5.parse(markup, builder=walker, full_tree=True)
     s = HTMLSerializer(inject_meta_charset=False, **opts)
+    w = h5.walk(tree, walker)
     if prior is not None:
-        # the serializer object has been used before, with another output encoding (a configuration like any other)
+        # the serializer object has been used before, with another output encoding (a configuration like any other); and the
+        # walker object has been walked before, that walk abandoned after a few tokens
         try:
             s.render(h5.walk(tree, walker), prior["encoding"])
         except Exception:
             pass
-    out = s.render(h5.walk(tree, walker), enc) if enc else s.render(h5.walk(tree, walker))
+        it = iter(w)
+        for _ in range(prior.get("walked", 0)):
+            next(it, None)
+    out = s.render(w, enc) if enc else s.render(w)
     if enc:
         r2, p2 = h5.parse(out, builder="etree", full_tree=True, transport_encoding=enc)
     else:
@@ -271,7 +276,7 @@ def run_shard(desc, seed, tier):
         case = {"doc": doc, "opts": opts, "encoding": enc, "walker": walker}
         k = odata[-1] % 8
         if k >= 4:
-            case["prior"] = {"encoding": [None, "utf-8", "koi8-r", "utf-8"][k - 4]}
+            case["prior"] = {"encoding": [None, "utf-8", "koi8-r", "utf-8"][k - 4], "walked": (odata[-2] % 4) * 3}
         acc.add(case, check_case(case), sample={"markup": short(G.writer(doc), 300), "opts": opts, "encoding": enc, "walker": walker})
     drive(strat, fn, desc["n"], seed)
     return acc
